@@ -95,6 +95,8 @@ def verify_contract(world, c, cache=None, max_paths=4000, limits=None):
                         return spec_bool(it, pred, env)
                 return None
             ctx.known_hook = hook
+        for r in c.axioms:
+            ctx.assume(spec_bool(it, r, env))
         for r in c.requires:
             ctx.assume(spec_bool(it, r, env))
         if not ctx.feasible():
